@@ -235,3 +235,61 @@ func (e *Engine) ownershipViolation(st *State, id int) {
 	}
 	e.Violations = append(e.Violations, v)
 }
+
+// collectRefs gathers the lengths of all slices/strings reachable from v whose backing object is target.
+func (e *Engine) collectRefs(st *State, v Value, target int, seen map[int]bool, out *[]*Term) {
+	visitObj := func(id int) {
+		if id == 0 || seen[id] || id == target {
+			return
+		}
+		o, ok := st.heap[id]
+		if !ok {
+			return
+		}
+		seen[id] = true
+		switch o.Kind {
+		case OCell:
+			e.collectRefs(st, o.Val, target, seen, out)
+		case OVec:
+			for _, x := range o.Vec {
+				e.collectRefs(st, x, target, seen, out)
+			}
+		case OMap:
+			for _, en := range o.Ents {
+				e.collectRefs(st, en.K, target, seen, out)
+				e.collectRefs(st, en.V, target, seen, out)
+			}
+		}
+	}
+	switch tv := v.(type) {
+	case PtrV:
+		visitObj(tv.Obj)
+	case SliceV:
+		if tv.Obj == target {
+			*out = append(*out, tv.Len)
+		}
+		visitObj(tv.Obj)
+	case StringV:
+		if tv.Obj == target {
+			*out = append(*out, tv.Len)
+		}
+	case MapV:
+		visitObj(tv.Obj)
+	case IfaceV:
+		if tv.T != nil {
+			e.collectRefs(st, tv.V, target, seen, out)
+		}
+	case StructV:
+		for _, f := range tv.Fields {
+			e.collectRefs(st, f, target, seen, out)
+		}
+	case ArrayV:
+		for _, x := range tv.Elems {
+			e.collectRefs(st, x, target, seen, out)
+		}
+	case TupleV:
+		for _, x := range tv {
+			e.collectRefs(st, x, target, seen, out)
+		}
+	}
+}
